@@ -60,7 +60,7 @@ func runE2E(c e2e.Case) (ev.Info, error) {
 				for _, r := range ctxs {
 					if r.Ctx["binding"] == kb.Name && r.Ctx["type"] == "Event" {
 						if sync == nil || r.Exec.Start < sync.Exec.End {
-							return info, fmt.Errorf("hook %s binding %s: an Event was handed to the hook (execution %d) before the binding's Synchronization completed successfully", h.Name, kb.Name, r.Exec.Seq)
+							return info, fmt.Errorf("OBSERVED: hook %s binding %s: an Event was handed to the hook (execution %d) before the binding's Synchronization completed successfully", h.Name, kb.Name, r.Exec.Seq)
 						}
 					}
 				}
